@@ -2,7 +2,7 @@
 From Coq Require Import String Ascii List Bool ZArith Arith.
 Import ListNotations.
 Require Import V.Lib.PyStr V.Lib.JTree V.Conf.Model V.Conf.Proofs.
-Require Import V.Conf.Rescan V.Conf.RescanProofs V.Conf.Acyclic V.Conf.Tree V.Conf.TreeInterp V.Conf.Types.
+Require Import V.Conf.Rescan V.Conf.RescanProofs V.Conf.Acyclic V.Conf.Tree V.Conf.TreeInterp V.Conf.Types V.Conf.Instance.
 Open Scope string_scope.
 
 (* Precedence, for every list of layers (lowest priority first), every option path and every variable:
@@ -199,6 +199,34 @@ Proof.
 Qed.
 Print Assumptions C04_types_table.
 
+(* The layering must also hold for the configuration obtained THROUGH FlowIRConcrete.instance(platform) /
+   replicate(platform) (every non-primitive experiment): instance() folds the platform into the default platform of
+   a new document (Instance.v: global = default global + platform global; stage = default stage WITHOUT the names
+   the platform's global section defines + platform stage; component = own + override[platform]) which is then read
+   as global < stage < component.  For every document, user variables, platform (default or not), stage, component
+   and variable:
+   (1) that three-layer reading picks the value of the SAME layer as the documented order
+       default global < default stage (+user) < platform global < platform stage (+user) < component < override;
+   (2) after the pre-resolution of the global and stage sections (FlowIR.interpolate of every value in its own
+       scope, a value that meets an unknown variable kept as written), whenever instance() succeeds, the variable is
+       defined in the instance exactly when some layer of the platform defines it, and
+   (3) when the documented value is a number, a boolean or text without '%' the instance holds that very value. *)
+Theorem C04_instance : forall (extra : nat) (d : doc) (u : jv) (p sk : string) (c : jv) (x : string),
+  lookup x (layer_vars (inst_var_layers d u p sk c)) = first_some (lookup x) (rev (var_layers d u p sk c))
+  /\ (forall G' S', inst_vars_pre extra d u p sk = Ok (G', S') ->
+        (lookup x (layer_vars [G'; S'; inst_comp_vars p c]) = None <->
+         first_some (lookup x) (rev (var_layers d u p sk c)) = None)
+        /\ (forall v, first_some (lookup x) (rev (var_layers d u p sk c)) = Some v -> value_plain v ->
+              lookup x (layer_vars [G'; S'; inst_comp_vars p c]) = Some v)).
+Proof.
+  intros extra d u p sk c x. rewrite <- (layer_vars_precedence x (var_layers d u p sk c)). split.
+  - exact (inst_layers_lookup d u p sk c x).
+  - intros G' S' H. split.
+    + exact (inst_pre_defined extra d u p sk c G' S' x H).
+    + intros v. exact (inst_pre_plain extra d u p sk c G' S' x v H).
+Qed.
+Print Assumptions C04_instance.
+
 (* non-vacuity: a two-platform document; on platform p the platform blueprint beats the default one, the
    component's override for p beats the component, the variable chain a -> b is followed, the override of the
    foreign platform q (which references an undefined variable) is ignored, and the typed leaf is converted *)
@@ -220,6 +248,19 @@ Definition ex_doc : doc :=
                                                               ("variables", JDict [("n", JStr "4")])]);
                                                  ("q", JDict [("command", JDict [("arguments", JStr "%(undefined)s")])])])]] |}.
 
+(* platform p: x is defined by default global and default stage (the stage wins), z also by the global section of p
+   (p wins: instance() drops z from the default stage section), w by default global and the stage section of p;
+   r (default stage) references q, which only the global section of p defines: it is resolved in the instance *)
+Definition ex_inst : doc :=
+  {| d_blueprint := JDict [];
+     d_variables := JDict [("default", JDict [("global", JDict [("x", JStr "dg-x"); ("z", JStr "dg-z"); ("w", JStr "dg-w")]);
+                                              ("stages", JDict [("0", JDict [("x", JStr "ds-x"); ("z", JStr "ds-z");
+                                                                             ("r", JStr "<%(q)s>")])])]);
+                           ("p", JDict [("global", JDict [("z", JStr "pg-z"); ("q", JStr "Q")]);
+                                        ("stages", JDict [("0", JDict [("w", JStr "ps-w")])])])];
+     d_components := [JDict [("name", JStr "c"); ("stage", JInt 0); ("variables", JDict [("n", JInt 2)])]] |}.
+Definition ex_inst_c : jv := JDict [("name", JStr "c"); ("stage", JInt 0); ("variables", JDict [("n", JInt 2)])].
+
 Definition ex_get (pi : list string) (r : res jv) : option jv := match r with Ok v => get_path pi v | Err _ => None end.
 
 Example C04_nonvacuous :
@@ -240,9 +281,19 @@ Example C04_nonvacuous :
   interp_string [("x", JStr "%("); ("y", JStr "Y")] "%(x)sy)s" = Ok "%(y)s" /\
   interp_string_rs 0 [("y", JStr "Y")] "%(flow.z)s %(y)s %(u)s" = Err (EUnknown "u") /\
   resolve_rs 0 ex_dflt ex_doc [] "p" 0 "c" = resolve ex_dflt ex_doc [] "p" 0 "c" /\
-  ex_get ["resourceRequest"; "numberProcesses"] (resolve_rs 0 ex_dflt ex_doc [] "p" 0 "c") = Some (JInt 4).
+  ex_get ["resourceRequest"; "numberProcesses"] (resolve_rs 0 ex_dflt ex_doc [] "p" 0 "c") = Some (JInt 4) /\
+  (* the instance: the default stage beats the default global also on platform p, the platform's global beats the
+     default stage, and the pre-resolution is not the identity *)
+  map (fun x => lookup x (layer_vars (inst_var_layers ex_inst (JDict []) "p" "0" ex_inst_c))) ["x"; "z"; "w"; "n"; "y"] =
+    [Some (JStr "ds-x"); Some (JStr "pg-z"); Some (JStr "ps-w"); Some (JInt 2); None] /\
+  lookup "x" (layer_vars (inst_var_layers ex_inst (JDict []) "default" "0" ex_inst_c)) = Some (JStr "ds-x") /\
+  has_key "z" (inst_stage ex_inst (JDict []) "p" "0") = false /\
+  (exists G' S', inst_vars_pre 0 ex_inst (JDict []) "p" "0" = Ok (G', S') /\
+                 lookup "r" S' = Some (JStr "<Q>") /\ lookup "x" S' = Some (JStr "ds-x")) /\
+  value_plain (JStr "ds-x").
 Proof.
-  repeat split; try (vm_compute; reflexivity); try exact ex_ctx_acyclic.
+  repeat split; try (vm_compute; reflexivity); try exact ex_ctx_acyclic;
+    try (eexists; eexists; split; [vm_compute; reflexivity|split; vm_compute; reflexivity]).
   - vm_compute. repeat constructor.
   - intros w s H. cbn in H. destruct (String.eqb w "a"); [injection H as <-|destruct (String.eqb w "b"); [injection H as <-|discriminate]];
       vm_compute; intros c Hc; repeat (destruct Hc as [Hc|Hc]; [try discriminate; injection Hc as <-; reflexivity|]); destruct Hc.
